@@ -7,7 +7,7 @@ TMP = os.path.join(vkit.OUT, "tmp")
 
 
 def driver():
-    return vkit.cc("dns_drv", ["dns_drv.c"], vclock=True)
+    return vkit.cc("dns_drv", ["dns_drv.c"], vclock=True, extra=["-Wl,--wrap=sendto"])
 
 
 def host_domain():
